@@ -198,3 +198,50 @@ impl IncrState {
         out
     }
 }
+
+
+// ---------------------------------------------------------------------------------------------
+// Deterministic hashing for the three maps whose iteration order decides the order in which
+// update handlers run (observers of a node, handlers of an observer, observers of the state).
+// The std RandomState makes that order differ from process to process; under the verification
+// cfg it is a pure function of a seed the harness sets per generated case, so that a saved case
+// replays exactly, while different cases still see different orders.
+
+thread_local! {
+    static VERIF_HASH_SEED: std::cell::Cell<u64> = std::cell::Cell::new(0);
+}
+
+/// Set the seed used by maps created afterwards on this thread (call before creating a state).
+pub fn verif_set_hash_seed(seed: u64) {
+    VERIF_HASH_SEED.with(|s| s.set(seed));
+}
+
+#[derive(Clone)]
+pub struct DetState(u64);
+impl Default for DetState {
+    fn default() -> Self {
+        DetState(VERIF_HASH_SEED.with(|s| s.get()))
+    }
+}
+pub struct DetHasher(u64);
+impl std::hash::Hasher for DetHasher {
+    fn finish(&self) -> u64 {
+        // final avalanche (splitmix64)
+        let mut z = self.0.wrapping_add(0x9E3779B97F4A7C15);
+        z = (z ^ (z >> 30)).wrapping_mul(0xBF58476D1CE4E5B9);
+        z = (z ^ (z >> 27)).wrapping_mul(0x94D049BB133111EB);
+        z ^ (z >> 31)
+    }
+    fn write(&mut self, bytes: &[u8]) {
+        for b in bytes {
+            self.0 = (self.0 ^ *b as u64).wrapping_mul(0x100000001b3);
+        }
+    }
+}
+impl std::hash::BuildHasher for DetState {
+    type Hasher = DetHasher;
+    fn build_hasher(&self) -> DetHasher {
+        DetHasher(0xcbf29ce484222325 ^ self.0)
+    }
+}
+pub type DetHashMap<K, V> = std::collections::HashMap<K, V, DetState>;
